@@ -76,7 +76,10 @@ def _worker(job):
             continue
         multi = args["multi"] if isinstance(args, dict) else [args]
         for k, a in enumerate(multi):
-            lines.append("(" + getattr(comp, "driver", comp_name) + f" c{i}_{k} " + " ".join(sx.enc(x) for x in a) + ")")
+            drv = getattr(comp, "driver", comp_name)
+            if isinstance(a, dict):
+                drv, a = a["driver"], a["args"]
+            lines.append("(" + drv + f" c{i}_{k} " + " ".join(sx.enc(x) for x in a) + ")")
         runs.append((i, c, impl, None, len(multi)))
     results = run_driver(lines) if lines else {}
     out = []
